@@ -65,6 +65,7 @@ class Model:
                 self.R[(r.aid, r.inc, r.idx)] = r
         self.recs = recs
         self.deadlock_snapshot = None
+        self.illformed = None
 
     def v(self, cls, msg):
         if len(self.viol) < 20:
@@ -115,6 +116,9 @@ class Model:
             w.grant_clock = self.now
             self.stats['recursive'] += 1
         else:
+            if m['owner'] == w.aid:
+                # relocking a non-recursive mutex one holds: not defined by the property, plan is ill-formed
+                self.illformed = 'actor %s locks non-recursive mutex %s that it already holds' % (w.aid, name)
             m['q'].append(w)
             self.stats['contended_lock'] += 1
 
@@ -165,7 +169,11 @@ class Model:
                 continue
             c['q'].pop(0)
             w.notified = True
+            w.grant_clock = self.now  # date of the notification
             w.phase = 1
+            if w.deadline is not None and self.now > w.deadline + EPS:
+                self.v('cv_timeout_missed', 'wait on %s by %s called at %r with deadline %r was still waiting at %r (it '
+                       'was then notified instead of having timed out)' % (name, w.aid, w.call_clock, w.deadline, self.now))
             self.mutex_lock_async(w.mutex, w)
             return True
         self.stats['cv_lost_notify'] += 1
@@ -246,7 +254,7 @@ class Model:
             dl = None
             if k == 'acquire_timeout':
                 t = float(a[1])
-                dl = self.now + max(t, 0.0)
+                dl = self.now + t if t >= 0 else None  # a negative timeout means "no timeout" (acquire() uses -1)
             w = Waiter(aid, key, 'sem', a[0], self.now, dl)
             self.pending[aid] = w
             if s['value'] > 0:
@@ -256,10 +264,7 @@ class Model:
                 w.grant_clock = self.now
             else:
                 self.stats['sem_blocked'] += 1
-                if self.expired_now(w):
-                    w.timedout = True
-                else:
-                    s['q'].append(w)
+                s['q'].append(w)  # a zero timeout fires at the next (zero-length) time advance, as any timer
         elif k == 'release':
             self.sem_release(a[0])
         elif k in ('cvwait', 'cvwait_for', 'cvwait_until'):
@@ -278,10 +283,7 @@ class Model:
             self.stats['cv_wait'] += 1
             # release the mutex (one level) and enqueue on the condition
             self.mutex_unlock(a[1], aid, key)
-            if self.expired_now(w):
-                self.cv_timeout(w)
-            else:
-                self.cv[a[0]]['q'].append(w)
+            self.cv[a[0]]['q'].append(w)
         elif k == 'notify_one':
             self.cv_signal(a[0])
         elif k == 'notify_all':
@@ -485,11 +487,17 @@ class Model:
                 if self.expired_now(w):
                     s['q'].remove(w)
                     w.timedout = True
+        exp = []
         for name, c in self.cv.items():
             for w in list(c['q']):
                 if self.expired_now(w):
                     c['q'].remove(w)
-                    self.cv_timeout(w)
+                    exp.append(w)
+        # several waiters timing out at the same date: the order in which they go back to the mutex queue is not
+        # specified; follow the observed return order (they re-acquire through the FIFO, so it is that order)
+        exp.sort(key=lambda w: self.R[w.key].seq if w.key in self.R else 1 << 60)
+        for w in exp:
+            self.cv_timeout(w)
         for table in (self.mbox, self.mq):
             for name, mb in table.items():
                 for side in ('sends', 'recvs'):
@@ -507,9 +515,10 @@ class Model:
             for c in pendingC:
                 self.handle_call(c)
             del pendingC[:]
-            self.expiries()
 
         for r in self.recs:
+            if r.t == 'B' or (r.t == 'S' and r.kind in ('time_advance', 'deadlock', 'end')):
+                flush()  # simcalls of the finished sub-round are handled at the date they were issued
             if r.clock is not None and r.t in ('C', 'R', 'S', 'B'):
                 self.now = r.clock
             if r.t == 'B':
